@@ -49,9 +49,16 @@ def gen_formula(r, names, depth):
     return "%s(%s,%s)" % (op, gen_formula(r, names, depth - 1), gen_formula(r, names, depth - 1))
 
 
+NAME_POOL = ["10", "2", "1", "9", "a", "B", "b", "x10", "x2", "x1", "and", "c", "neg", "s0", "s1"]
+
+
 def gen_adf(r):
     n = r.randint(1, 5)
-    names = ["s%d" % i for i in range(n)]
+    if r.random() < 0.5:
+        # labels whose declaration, lexicographic and alphanumeric orders all differ
+        names = r.sample(NAME_POOL, n)
+    else:
+        names = ["s%d" % i for i in range(n)]
     depth = r.randint(1, 3)
     return "".join("s(%s)." % x for x in names) + "".join("ac(%s,%s)." % (x, gen_formula(r, names, depth)) for x in names)
 
@@ -63,10 +70,24 @@ TARGETS_EXISTING = ["file", "dir", "symlink-file"]
 
 
 def gen_case(seed, i, thorough):
+    c = gen_case_inner(seed, i, thorough)
+    r = random.Random((seed << 21) ^ (i * 40503) ^ 0x50F7)
+    # the stored variable order is what counts: a sorting flag given together with --import
+    # must not change what is printed
+    if r.random() < 0.3:
+        c["import_sort"] = [r.choice(["--an", "--lx"])]
+    return c
+
+
+def gen_case_inner(seed, i, thorough):
     r = random.Random((seed << 20) ^ (i * 2654435761) ^ 0xC14)
     adf = gen_adf(r)
     flags = [f for f in ["--grd", "--com", "--stm"] if r.random() < 0.7] or ["--grd"]
     x = r.random()
+    if x > 0.93:
+        # a file size limit (quota / ulimit -f) with SIGXFSZ ignored: the write that crosses the
+        # limit is short, the next one fails with EFBIG
+        return {"adf": adf, "flags": flags, "target": "absent", "fault": {"syscall": "rlimit_fsize", "kind": "bytes", "when": r.choice([1, 16, 64, 100, 200, 256, 300, 512, 1024])}}
     if x < 0.10:
         # fault while the exported file is read back (import side)
         return {"adf": adf, "flags": flags, "target": "absent", "fault": None,
@@ -88,12 +109,19 @@ def gen_case(seed, i, thorough):
 # ---------------------------------------------------------------------------------------------
 # one simulated CLI world
 # ---------------------------------------------------------------------------------------------
-def run_bin(args, cwd, strace=None):
+def run_bin(args, cwd, strace=None, fsize=None):
     cmd = [BIN] + args
     if strace:
         cmd = ["strace", "-f", "-qq", "-o", os.path.join(cwd, "strace.out")] + strace + cmd
     env = {"PATH": os.environ.get("PATH", "/usr/bin:/bin"), "RUST_LOG": "error"}
-    p = subprocess.run(cmd, cwd=cwd, env=env, stdout=subprocess.PIPE, stderr=subprocess.PIPE, timeout=120)
+    pre = None
+    if fsize is not None:
+        def pre():
+            import resource
+            import signal
+            signal.signal(signal.SIGXFSZ, signal.SIG_IGN)
+            resource.setrlimit(resource.RLIMIT_FSIZE, (fsize, fsize))
+    p = subprocess.run(cmd, cwd=cwd, env=env, stdout=subprocess.PIPE, stderr=subprocess.PIPE, timeout=120, preexec_fn=pre)
     return p.returncode, p.stdout.decode("utf-8", "replace"), p.stderr.decode("utf-8", "replace")
 
 
@@ -136,12 +164,22 @@ def execute(case, workdir):
             os.symlink("real.json", F)
         before = snapshot(F)
         strace = None
+        fsize = None
         fl = case["fault"]
-        if fl:
+        if fl and fl["syscall"] == "rlimit_fsize":
+            fsize = fl["when"]
+        elif fl:
             strace = ["-e", "trace=%s" % fl["syscall"], "-P", "F.json", "-P", F, "-e", "inject=%s:%s:when=%d" % (fl["syscall"], fl["kind"], fl["when"])]
-        rc, out, err = run_bin(["--lib", "naive", "--export", "F.json"] + case["flags"] + ["in.adf"], workdir, strace)
+        rc, out, err = run_bin(["--lib", "naive", "--export", "F.json"] + case["flags"] + ["in.adf"], workdir, strace, fsize)
         info["export_exit"] = rc
-        if fl:
+        if fsize is not None:
+            try:
+                full = len(json.dumps(None)) and os.path.getsize(F)
+            except OSError:
+                full = 0
+            # the limit bit iff the file stopped exactly at it (stdout is a pipe, not limited)
+            info["injected"] = full == fsize
+        elif fl:
             try:
                 tr = open(os.path.join(workdir, "strace.out")).read()
             except OSError:
@@ -165,7 +203,7 @@ def execute(case, workdir):
                 istrace = None
                 if ifl:
                     istrace = ["-e", "trace=read", "-P", "F.json", "-P", F, "-e", "inject=read:%s:when=%d" % (ifl["kind"], ifl["when"])]
-                rc2, out2, err2 = run_bin(["--lib", "naive", "--import"] + case["flags"] + ["F.json"], workdir, istrace)
+                rc2, out2, err2 = run_bin(["--lib", "naive", "--import"] + case.get("import_sort", []) + case["flags"] + ["F.json"], workdir, istrace)
                 if ifl:
                     try:
                         info["import_injected"] = "(INJECTED)" in open(os.path.join(workdir, "strace.out")).read()
